@@ -26,6 +26,7 @@ import (
 	"os"
 	"reflect"
 	"strings"
+	"sync"
 	"testing"
 	"time"
 
@@ -452,19 +453,7 @@ func TestVerifC11(t *testing.T) {
 	}
 
 	var srvAddr string
-	startServer := func() {
-		srv := &broker.Server{Addr: "127.0.0.1:0", Handler: h}
-		ctx, cancel := context.WithCancel(context.Background())
-		t.Cleanup(cancel)
-		go func() { _ = srv.ListenAndServe(ctx) }()
-		for i := 0; i < 200; i++ {
-			time.Sleep(10 * time.Millisecond)
-			if a := srv.ListenAddress(); a != "" && a != "127.0.0.1:0" {
-				srvAddr = a
-				return
-			}
-		}
-	}
+	startServer := func() { srvAddr = c11Serve(t, h) }
 	runServer := func(cs c11Case) {
 		if srvAddr == "" {
 			return
@@ -502,7 +491,7 @@ func TestVerifC11(t *testing.T) {
 			Path string `json:"path"`
 		}
 		_ = json.Unmarshal(rc, &probe)
-		if probe.Path != "" {
+		if probe.Path != "" || cs.Via == "concurrent" {
 			// a proxy-side replay: handled by the proxy harness
 		} else if cs.Via == "server" {
 			startServer()
@@ -582,4 +571,241 @@ func c11Cut(b []byte) []byte {
 		return b[:64]
 	}
 	return b
+}
+
+// ---------------------------------------------------------------- concurrent stream
+//
+// The Coq theorems and the sequential streams are about the per-request function. State
+// shared between requests (a cached response message, a reused buffer, ...) can only go wrong
+// when requests overlap: this stream opens several client connections at once to a real
+// broker.Server (loopback TCP: ReadFrame, ParseRequest, handler.Handle, WriteFrame per
+// connection goroutine) and sends requests of the same API at DIFFERENT versions, and mixed
+// APIs, simultaneously for a bounded number of rounds. Only read-only APIs are used, so over
+// the unchanged in-memory store every reply must equal byte for byte the reply the same
+// request got alone, and is checked like a sequential one (correlation id, header shape, kmsg
+// decode at the request's version, canonical re-encode).
+
+type c11Req struct {
+	Key     int16  `json:"key"`
+	Version int16  `json:"version"`
+	Body    []byte `json:"body"`
+}
+
+type c11ConcCase struct {
+	Via        string   `json:"via"` // "concurrent"
+	Requests   []c11Req `json:"requests"`
+	Goroutines int      `json:"goroutines"`
+	Rounds     int      `json:"rounds"`
+}
+
+func c11CheckReply(rq c11Req, corr int32, reply []byte) (string, string) {
+	name := kmsg.NameForKey(rq.Key)
+	if len(reply) < 4 {
+		return "concurrent-short:" + name, fmt.Sprintf("%s v%d: reply of %d bytes", name, rq.Version, len(reply))
+	}
+	if got := int32(binary.BigEndian.Uint32(reply)); got != corr {
+		return "concurrent-correlation:" + name, fmt.Sprintf("%s v%d: reply carries correlation id %#x, request had %#x", name, rq.Version, got, corr)
+	}
+	kresp := kmsg.ResponseForKey(rq.Key)
+	kresp.SetVersion(rq.Version)
+	flex := kresp.IsFlexible() && rq.Key != 18
+	dec, exact := c11Decode(rq.Key, rq.Version, reply, flex)
+	if !dec || !exact {
+		other := "none of 0..MaxVersion"
+		for v := int16(0); v <= kmsg.RequestForKey(rq.Key).MaxVersion(); v++ {
+			kr := kmsg.ResponseForKey(rq.Key)
+			kr.SetVersion(v)
+			if d, e := c11Decode(rq.Key, v, reply, kr.IsFlexible() && rq.Key != 18); d && e && v != rq.Version {
+				other = fmt.Sprintf("version %d", v)
+				break
+			}
+		}
+		return "concurrent-corrupt:" + name, fmt.Sprintf("%s v%d: reply behind the request's correlation id does not decode canonically at version %d (decodes=%v, re-encodes identically=%v); its body is a canonical encoding at %s; reply bytes %x", name, rq.Version, rq.Version, dec, exact, other, c11Cut(reply))
+	}
+	return "", ""
+}
+
+type c11ConcFailure struct {
+	key, what string
+	req       c11Req
+}
+
+func c11RoundTrip(conn net.Conn, rq c11Req, corr int32) ([]byte, error) {
+	_ = conn.SetDeadline(time.Now().Add(15 * time.Second))
+	if err := protocol.WriteFrame(conn, c11Payload(rq.Key, rq.Version, corr, rq.Body)); err != nil {
+		return nil, err
+	}
+	f, err := protocol.ReadFrame(conn)
+	if err != nil {
+		return nil, err
+	}
+	return f.Payload, nil
+}
+
+func c11RunConcurrent(addr string, cs c11ConcCase) (*c11ConcFailure, int) {
+	ref := make([][]byte, len(cs.Requests))
+	seq, err := net.DialTimeout("tcp", addr, 5*time.Second)
+	if err != nil {
+		return &c11ConcFailure{"concurrent-dial", err.Error(), c11Req{}}, 0
+	}
+	for i, rq := range cs.Requests {
+		reply, err := c11RoundTrip(seq, rq, 0x5e9e0000+int32(i))
+		if err != nil {
+			_ = seq.Close()
+			return &c11ConcFailure{"concurrent-no-reply:" + kmsg.NameForKey(rq.Key), fmt.Sprintf("%s v%d: no reply on a sequential connection: %v", kmsg.NameForKey(rq.Key), rq.Version, err), rq}, i
+		}
+		if k, w := c11CheckReply(rq, 0x5e9e0000+int32(i), reply); k != "" {
+			_ = seq.Close()
+			return &c11ConcFailure{k, "sequential reference: " + w, rq}, i
+		}
+		ref[i] = append([]byte{}, reply[4:]...)
+	}
+	_ = seq.Close()
+
+	var mu sync.Mutex
+	var first *c11ConcFailure
+	checked := 0
+	start := make(chan struct{})
+	var wg sync.WaitGroup
+	for g := 0; g < cs.Goroutines; g++ {
+		wg.Add(1)
+		go func(g int) {
+			defer wg.Done()
+			conn, err := net.DialTimeout("tcp", addr, 5*time.Second)
+			if err != nil {
+				return
+			}
+			defer conn.Close()
+			<-start
+			n := 0
+			for round := 0; round < cs.Rounds; round++ {
+				i := (g + round*(g%3+1)) % len(cs.Requests)
+				rq := cs.Requests[i]
+				corr := int32(g+1)<<20 | int32(round)
+				reply, err := c11RoundTrip(conn, rq, corr)
+				var k, w string
+				if err != nil {
+					k, w = "concurrent-no-reply:"+kmsg.NameForKey(rq.Key), fmt.Sprintf("%s v%d: no reply while %d connections were active: %v", kmsg.NameForKey(rq.Key), rq.Version, cs.Goroutines, err)
+				} else if k, w = c11CheckReply(rq, corr, reply); k == "" && !bytes.Equal(reply[4:], ref[i]) {
+					k, w = "concurrent-differs:"+kmsg.NameForKey(rq.Key), fmt.Sprintf("%s v%d: reply under concurrency differs from the reply to the same request sent alone: %x vs %x", kmsg.NameForKey(rq.Key), rq.Version, c11Cut(reply[4:]), c11Cut(ref[i]))
+				}
+				n++
+				mu.Lock()
+				if k != "" && first == nil {
+					first = &c11ConcFailure{k, w, rq}
+				}
+				stop := first != nil
+				mu.Unlock()
+				if stop {
+					break
+				}
+			}
+			mu.Lock()
+			checked += n
+			mu.Unlock()
+		}(g)
+	}
+	close(start)
+	wg.Wait()
+	return first, checked
+}
+
+func c11StartServer(t *testing.T) string {
+	store := metadata.NewInMemoryStore(defaultMetadata())
+	h := newHandler(store, storage.NewMemoryS3Client(), protocol.MetadataBroker{NodeID: 1, Host: "localhost", Port: 19092}, testLogger())
+	return c11Serve(t, h)
+}
+
+// c11Serve starts a real broker.Server for h on a free loopback port and waits until it accepts.
+// (The port is chosen here and the server is probed by dialing: Server.ListenAddress reads a field
+// that ListenAndServe writes without synchronisation.)
+func c11Serve(t *testing.T, h *handler) string {
+	l, err := net.Listen("tcp", "127.0.0.1:0")
+	if err != nil {
+		return ""
+	}
+	addr := l.Addr().String()
+	_ = l.Close()
+	srv := &broker.Server{Addr: addr, Handler: h}
+	ctx, cancel := context.WithCancel(context.Background())
+	t.Cleanup(cancel)
+	go func() { _ = srv.ListenAndServe(ctx) }()
+	for i := 0; i < 300; i++ {
+		time.Sleep(10 * time.Millisecond)
+		if c, err := net.DialTimeout("tcp", addr, time.Second); err == nil {
+			_ = c.Close()
+			return addr
+		}
+	}
+	return ""
+}
+
+func TestVerifC11Concurrent(t *testing.T) {
+	log.SetOutput(io.Discard)
+	name := "C11_broker_conc" + os.Getenv("VERIF_C11_TAG")
+	rep := vNewReport("C11", "concurrent stream: several client connections at once to a real broker.Server (loopback TCP), requests of the same API at different versions and mixed read-only APIs (ApiVersions, Metadata, FindCoordinator, ListGroups, ListOffsets, DescribeGroups, OffsetFetch, DescribeConfigs) simultaneously for a bounded number of rounds; each reply checked like a sequential one and compared byte for byte with the reply the same request got alone")
+	def := func(key, ver int16) c11Req {
+		rq := kmsg.RequestForKey(key)
+		rq.SetVersion(ver)
+		if m, ok := rq.(*kmsg.MetadataRequest); ok {
+			m.AllowAutoTopicCreation = false
+		}
+		return c11Req{Key: key, Version: ver, Body: rq.AppendTo(nil)}
+	}
+	var cases []c11ConcCase
+	if rc := vReplayCase(); rc != nil {
+		var cs c11ConcCase
+		if err := json.Unmarshal(rc, &cs); err != nil || cs.Via != "concurrent" {
+			rep.WriteAs(name)
+			return
+		}
+		cases = []c11ConcCase{cs}
+	} else {
+		rounds := vN(2000, 12000)
+		readOnly := map[int16]bool{18: true, 3: true, 10: true, 16: true, 2: true, 15: true, 9: true, 32: true}
+		var apiv, mixed []c11Req
+		for _, e := range generateApiVersions() {
+			for v := e.MinVersion; v <= e.MaxVersion && v >= 0; v++ {
+				if e.ApiKey == 18 {
+					apiv = append(apiv, def(18, v))
+				}
+				if readOnly[e.ApiKey] {
+					mixed = append(mixed, def(e.ApiKey, v))
+				}
+			}
+		}
+		cases = []c11ConcCase{
+			{Via: "concurrent", Requests: apiv, Goroutines: 8, Rounds: rounds},
+			{Via: "concurrent", Requests: mixed, Goroutines: 8, Rounds: rounds},
+		}
+	}
+	for _, cs := range cases {
+		addr := c11StartServer(t)
+		if addr == "" {
+			rep.Notes = append(rep.Notes, "loopback server did not start; concurrent stream not run")
+			break
+		}
+		f, n := c11RunConcurrent(addr, cs)
+		rep.Evaluations += n
+		rep.Histogram["broker-concurrent-replies"] += n
+		if f != nil {
+			shr := cs
+			for _, other := range cs.Requests {
+				if other.Key == f.req.Key && other.Version != f.req.Version {
+					cand := c11ConcCase{Via: "concurrent", Requests: []c11Req{f.req, other}, Goroutines: 2, Rounds: cs.Rounds * 4}
+					if a2 := c11StartServer(t); a2 != "" {
+						if f2, _ := c11RunConcurrent(a2, cand); f2 != nil && f2.key == f.key {
+							shr, f = cand, f2
+							break
+						}
+					}
+				}
+			}
+			rep.Fail("concurrent", f.key, f.what, shr)
+		}
+	}
+	rep.WriteAs(name)
+	if len(rep.Failures) > 0 {
+		t.Logf("oracle failures: %s", strings.TrimSpace(rep.Failures[0].What))
+	}
 }
